@@ -553,7 +553,28 @@ def param_registry(eng):
                             st = cfgp.ast_of(m)
                             if isinstance(st, ast.Assign) and isinstance(st.value, ast.Tuple):
                                 tup = st.value
+                            elif isinstance(st, ast.Return) and isinstance(st.value, ast.Tuple):
+                                tup = st.value              # `if key == "k": return 'int', False, lo, hi`
                     typed[side.value] = tup
+    # ... or a table: a dict (in place or a module-level constant of params.py) from key to (type, nonetype_ok, lower, upper), read with [] / .get() / `in`
+    pm = eng.prog.modules.get(pt.module)
+    tables_seen = []
+    for node in eng.prog.own_nodes(pt):
+        cand = None
+        if isinstance(node, ast.Subscript):
+            cand = node.value
+        elif isinstance(node, ast.Call) and isinstance(node.func, ast.Attribute) and node.func.attr == "get":
+            cand = node.func.value
+        elif isinstance(node, ast.Compare) and len(node.ops) == 1 and isinstance(node.ops[0], (ast.In, ast.NotIn)):
+            cand = node.comparators[0]
+        if isinstance(cand, ast.Name) and pm is not None and cand.id in pm.globals:
+            cand = pm.globals[cand.id]
+        if isinstance(cand, ast.Dict) and cand not in tables_seen:
+            tables_seen.append(cand)
+    for tab in tables_seen:
+        for k, v in zip(tab.keys, tab.values):
+            if isinstance(k, ast.Constant) and isinstance(k.value, str) and isinstance(v, ast.Tuple) and len(v.elts) == 4:
+                typed.setdefault(k.value, v)
     return defaults, typed
 
 
